@@ -780,7 +780,9 @@ class Backend:
         if feed:
             reasons.append('to feed input')
 
-        if can_use_env and reasons == ['to set env'] and shutil.which('env'):
+        # env(1) takes every leading word with a '=' in it for an assignment,
+        # a program whose path contains one has to go through the wrapper.
+        if can_use_env and reasons == ['to set env'] and '=' not in es.cmd_args[0] and shutil.which('env'):
             envlist = []
             for k, v in env.get_env({}).items():
                 envlist.append(f'{k}={v}')
